@@ -167,6 +167,11 @@ def invOk (c : Chan) : Bool :=
         && cl.rdy == rdyOf c.hist cl.conn && cl.closing == closedOf c.hist cl.conn
         && decide (0 ≤ cl.rdy) && (!cl.closing || cl.rdy == 0))
 
+/-- after fix F13, under every schedule: `in_flight_count` = messages held in the in-flight map +
+FINs of this connection that completed on the channel and have not run `FinishedMessage` yet -/
+def inFlOk (c : Chan) : Bool :=
+  c.clients.all (fun cl => cl.inFlight == (heldBy c.msgs cl.conn : Int) + (c.pendingFin.count cl.conn : Nat))
+
 /-- the additional conjuncts of the atomic model (no FIN is split around an `Empty`) -/
 def invOkA (conf : Conf) (c : Chan) : Bool :=
   invOk c
@@ -204,7 +209,7 @@ def topicOk (conf : NConf) (nextId : Nat) (t : Topic) : Bool :=
 
 def invOkState (s : State) (atomic : Bool := true) : Bool :=
   s.topics.all (fun t => topicOk s.conf s.nextId t
-    && t.chans.all (fun nc => if atomic then invOkA s.conf.chan nc.ch else invOk nc.ch))
+    && t.chans.all (fun nc => if atomic then invOkA s.conf.chan nc.ch else (invOk nc.ch && inFlOk nc.ch)))
   && nodupB (s.topics.map (·.tid))
 
 /-- one line for the driver: which topic/channel fails, if any -/
